@@ -26,6 +26,12 @@ SEEDS = {
  'C13-A': ('rfc822', './rfc822', 'TestMutA'), 'C13-B': ('rfc822', './rfc822', 'TestMutB'), 'C13-C': ('rfc822', './rfc822', 'TestMutC'),
  'C13-D': ('internal/response', './internal/response', 'TestMutD'),
  'C18-A': ('tests', './tests', 'TestDemoA'), 'C18-B': ('tests', './tests', 'TestDemoB'), 'C18-C': ('tests', './tests', 'TestDemoC'),
+ 'C02-A': ('tests', './tests', 'TestDemoC02A'), 'C02-B': ('tests', './tests', 'TestDemoC02B'),
+ 'C07-C': ('tests', './tests', 'TestDemoC07C'), 'C07-D': ('tests', './tests', 'TestDemoC07D'),
+ 'C08-A': ('internal/db_impl/sqlite3', './internal/db_impl/sqlite3', 'TestDemoA_'), 'C08-B': ('internal/db_impl/sqlite3', './internal/db_impl/sqlite3', 'TestDemoB_'),
+ 'C12-C': ('imap', './imap', 'TestDemoC_'), 'C12-D': ('imap', './imap', 'TestDemoD_'),
+ 'C14-A': ('tests', './tests', 'TestDemoC14A'), 'C14-B': ('tests', './tests', 'TestDemoC14B'),
+ 'C20-C': ('tests', './tests', 'TestDemoC20C'), 'C20-D': ('tests', './tests', 'TestDemoC20D'),
 }
 # demo files that belong to another package than the main demo (skipped in the confirmation run)
 SKIP = {'C01-A': ['c01_uid_range_seq_test.go'], 'C16-A': ['zz_demo_a_wire_test.go'], 'C16-B': ['zz_demo_b_wire_test.go'], 'C05-A': ['c05_mutA_readd_demo_test.go']}
